@@ -8,6 +8,7 @@ import (
 	"os"
 	"os/exec"
 	"path/filepath"
+	"regexp"
 	"strconv"
 	"strings"
 	"text/template"
@@ -160,6 +161,12 @@ func runReplay(rf *replayFile) {
 	cmd.Run()
 	rf.ReplayOut = truncate(out.String(), 8000)
 	rf.Reproduced = strings.Contains(out.String(), "REPRODUCED")
+	// a template may declare an output pattern that counts as reproduction (e.g. a crash of the test process)
+	if m := regexp.MustCompile(`(?m)^// REPRO-IF-OUTPUT: (.*)$`).FindStringSubmatch(rf.ReplayTest); m != nil {
+		if re, err := regexp.Compile(strings.TrimSpace(m[1])); err == nil && re.MatchString(out.String()) {
+			rf.Reproduced = true
+		}
+	}
 }
 
 func replayMain(path string) int {
